@@ -98,6 +98,26 @@ def exec_stack(ops, stats=None):
                     return _viol("stack", f"peek-or-index-differ-after-{name}", i, op, {"peek": s.peek(), "expected": list(m)}, ops)
             if list(s[:]) != m or list(reversed(s)) != m[::-1] or list(s[1:]) != m[1:] or list(s[-2:]) != m[-2:]:
                 return _viol("stack", f"slice-or-reversed-differ-after-{name}", i, op, {"expected": list(m)}, ops)
+            n = len(m)
+            if n <= 5 and name in ("restore", "drop", "clear", "pop"):
+                # the whole Sequence protocol on small stacks: every index, a sweep of slices,
+                # membership, index(), count(), iteration
+                for j in range(-n, n):
+                    if s[j] != m[j]:
+                        return _viol("stack", f"index-differs-after-{name}", i, op, {"index": j, "got": s[j], "expected": list(m)}, ops)
+                for a_ in (-2, 0, 1):
+                    for b_ in (-1, 2, None):
+                        if list(s[a_:b_]) != m[a_:b_] or list(s[b_:a_:-1]) != m[b_:a_:-1]:
+                            return _viol("stack", f"slice-differs-after-{name}", i, op, {"slice": [a_, b_], "expected": list(m)}, ops)
+                if [x for x in s] != m or (0 in s) or any(x not in s for x in m) or any(s.index(x) != m.index(x) or s.count(x) != 1 for x in m):
+                    return _viol("stack", f"sequence-protocol-differs-after-{name}", i, op, {"expected": list(m)}, ops)
+                for bad in (n, -n - 1):
+                    try:
+                        s[bad]
+                    except IndexError:
+                        pass
+                    else:
+                        return _viol("stack", f"index-out-of-range-accepted-after-{name}", i, op, {"index": bad, "expected": list(m)}, ops)
         except Exception as e:  # noqa: BLE001 - any exception from the implementation is a finding
             return _viol("stack", f"raises-{type(e).__name__}-in-{name}", i, op, {"exception": repr(e), "model": list(m), "snapshots": len(copies)}, ops)
         if stats is not None:
@@ -126,6 +146,20 @@ def exec_int(ops, stats=None):
             elif name == "mul":
                 x = x * op[1]
                 v *= op[1]
+            elif name == "floordiv":
+                x = x // op[1]
+                v //= op[1]
+            elif name == "mod":
+                x = x % op[1]
+                v %= op[1]
+            elif name == "pow":
+                x = x ** op[1]
+                v **= op[1]
+            elif name == "truediv":
+                x = x / op[1]
+                v = int(v / op[1])
+            elif name == "pos":
+                x = +x
             elif name == "neg":
                 x = -x
                 v = -v
@@ -401,9 +435,51 @@ def gen_stack(rng: random.Random, probes: dict) -> list:
         restore()
         probes["shape_c"] += 1
 
+    def shape_d():
+        # one run of pops crossing the low-water marks of TWO outstanding snapshots
+        for _ in range(rng.randint(2, 4)):
+            push()
+        snapshot()
+        for _ in range(rng.randint(1, 3)):
+            push()
+        snapshot()
+        if rng.random() < 0.5:
+            push()
+        for _ in range(rng.randint(2, 6)):
+            pop()
+        for _ in range(rng.randint(0, 2)):
+            push()
+        (restore if rng.random() < 0.6 else drop)()
+        if rng.random() < 0.4:
+            pop()
+        restore()
+        probes["shape_d"] += 1
+
+    def shape_e():
+        # clear() while the newest snapshot's low-water mark is already below its level and
+        # another snapshot is outstanding; then both are restored
+        for _ in range(rng.randint(2, 4)):
+            push()
+        snapshot()
+        if rng.random() < 0.5:
+            pop()
+        snapshot()
+        for _ in range(rng.randint(1, 2)):
+            pop()
+        for _ in range(rng.randint(0, 2)):
+            push()
+        clear()
+        for _ in range(rng.randint(0, 2)):
+            push()
+        restore()
+        restore()
+        if rng.random() < 0.5:
+            restore()  # and once more with no snapshot left: must empty the stack
+        probes["shape_e"] += 1
+
     while len(ops) < n:
         if shapes < 0.6 and rng.random() < 0.15:
-            rng.choice((shape_a, shape_b, shape_c))()
+            rng.choice((shape_a, shape_b, shape_c, shape_d, shape_e))()
             continue
         k = rng.choices(kinds, weights)[0]
         if k == "push":
@@ -428,14 +504,19 @@ def gen_stack(rng: random.Random, probes: dict) -> list:
 def gen_int(rng: random.Random, probes: dict) -> list:
     ops: list = []
     n = rng.choice((rng.randint(1, 8), rng.randint(5, 40)))
-    kinds = ["add", "sub", "zero", "snapshot", "restore", "drop", "mul", "neg", "abs"]
-    weights = [4, 3, 1, 3, 3, rng.choice((0, 1, 3)), rng.choice((0, 1)), rng.choice((0, 1)), rng.choice((0, 1))]
+    kinds = ["add", "sub", "zero", "snapshot", "restore", "drop", "mul", "neg", "abs", "floordiv", "mod", "pow", "truediv", "pos"]
+    exotic = rng.choice((0, 0, 1))
+    weights = [4, 3, 1, 3, 3, rng.choice((0, 1, 3)), rng.choice((0, 1)), rng.choice((0, 1)), rng.choice((0, 1)), exotic, exotic, exotic, exotic, exotic]
     for _ in range(n):
         k = rng.choices(kinds, weights)[0]
         if k in ("add", "sub"):
             ops.append([k, rng.choice((1, 1, 1, 2, 3))])
         elif k == "mul":
             ops.append([k, rng.choice((0, 1, 2, -1))])
+        elif k in ("floordiv", "mod", "truediv"):
+            ops.append([k, rng.choice((1, 2, 3, -2))])
+        elif k == "pow":
+            ops.append([k, rng.choice((0, 1, 2))])
         else:
             ops.append([k])
     return ops
@@ -567,7 +648,7 @@ def run_batch(job) -> dict:
     gc.disable()
     subject = job["subject"]
     rng = random.Random(job["seed"])
-    probes = {k: 0 for k in ("gen_uniform_short", "shape_a", "shape_b", "shape_c", "restore_without_snapshot")}
+    probes = {k: 0 for k in ("gen_uniform_short", "shape_a", "shape_b", "shape_c", "shape_d", "shape_e", "restore_without_snapshot")}
     st = {"steps": 0, "nontrivial_flag": False}
     distinct_nt: set[int] = set()
     abstract: set[int] = set()
